@@ -185,6 +185,9 @@ def classify(pid, results, baseline, known):
                 helper_loop = any(a.get("kind") == "inline-loop" for a in (f.get("abstractions") or []))
                 anchor_drift = any(("anchor not found" in d or "names a variable the code no longer has" in d) for d in (f.get("drift") or []))
                 independent = o["kind"] in ("index", "slice", "div", "nil", "panic", "exit", "typeassert", "makeslice", "lock", "monitor", "frame", "shift", "conv")
+                # ... unless the anchor that vanished carried an explicit assumption (`assume at`): safety proofs rest on those too
+                if any("anchor not found: assume" in d for d in (f.get("drift") or [])):
+                    independent = False
                 # a guard clause (`requires false` on a call that must not appear) depends on nothing
                 independent = independent or (o["desc"] or "").rstrip().endswith("precondition false")
                 mm = re.search(r"loop(\d+)-invariant", o["clause"])
